@@ -146,21 +146,6 @@ def jobs(tier, seed):
             out.append(Job('leaf/generate_pin_in_ray_%s_%d' % (sn, ray), MTUS, [fr], h, 'h_pr', contracts={fr: c}, enforce=fr, spec=['movegen.h'], force_globals=['PINS'],
                            pre_text='static inline uint32_t sp_kind8(uint32_t pc) { return pc == 0 ? 0u : (pc - 1u) % 6u + 1u; }\n', timeout=1200,
                            note='pin on ray %d: first piece on the ray from the king is an own piece and the second an enemy slider of the matching kind (lsb/msb of the masked ray == walking the ray)' % ray))
-        fpn = 'generate_pins_%d' % side
-        PA = '%s, ($1->_by_color_bb[0] | $1->_by_color_bb[1]), %s, %s, %s, %s' % (KS, OWN, EQ_, ER_, EB_)
-        c = ('__CPROVER_requires(%s < 64 && __CPROVER_same_object($2, PINS) && __CPROVER_POINTER_OFFSET($2) == 0 && __CPROVER_rw_ok($3, 8))\n' % KS +
-             '__CPROVER_assigns(*$3, __CPROVER_object_upto($2, 32))\n'
-             '__CPROVER_ensures(*$3 == (__CPROVER_old(*$3) | spec_pinned_set(%s)))\n' % PA +
-             '__CPROVER_ensures(__CPROVER_same_object(__CPROVER_return_value, PINS) && __CPROVER_POINTER_OFFSET(__CPROVER_return_value) == 4 * spec_pin_rank(8, %s))\n' % PA +
-             ''.join('__CPROVER_ensures(spec_pin_sq(%d, %s) == 64 || PINS[spec_pin_rank(%d, %s)] == ((%du << 9) | (sp_kind8($1->_board[spec_pin_sq(%d, %s)]) << 6) | spec_pin_sq(%d, %s)))\n'
-                     % (r, PA, r, PA, r, r, PA, r, PA) for r in range(8)))
-        PINS_CONTRACT = c
-        h = ND + ('void h_pins(void) {\n  struct Position P = nondet_Position(); uint64_t pinned = nondet_u64();\n'
-                  '  %s(&P, PINS, &pinned);' % fpn + CANARY + '}\n')
-        out.append(Job('leaf/generate_pins_' + sn, MTUS, [fpn], h, 'h_pins', contracts=dict(pin_contracts, **{fpn: c}), nobody=list(pin_contracts), enforce=fpn,
-                       replace=list(pin_contracts), spec=['movegen.h'], force_globals=['PINS'],
-                       pre_text='static inline uint32_t sp_kind8(uint32_t pc) { return pc == 0 ? 0u : (pc - 1u) % 6u + 1u; }\n', timeout=1500,
-                       note='pins: pinned set and pin records (square, kind, ray) in ray order, over the contracts of the eight per-ray functions'))
         # ---- forbidden squares (attacked with the own king x-rayed out), point-wise at the ghost square G_F1 (the contract holds for every value
         #      of the ghost, which the function never reads: callers may instantiate it at several squares).  Loop contracts over the four piece lists;
         #      both directions go through ghost witnesses because invariants may not call functions:
@@ -245,6 +230,7 @@ def composition_jobs(leaf_contracts):
             Q = 'G_AG.pin[%d]' % ray
             cs[fr] = ('__CPROVER_requires(%s < 64 && __CPROVER_same_object($2, PINS) && __CPROVER_POINTER_OFFSET($2) %% 4 == 0 && __CPROVER_POINTER_OFFSET($2) + 4 <= 64 && __CPROVER_rw_ok($3, 8) && $4 == %s)\n' % (KSQ, OCC1) +
                       '__CPROVER_assigns(*$2, *$3)\n'
+                      '__CPROVER_ensures(__CPROVER_same_object(__CPROVER_return_value, PINS))\n'
                       '__CPROVER_ensures(%s == 64 ==> (__CPROVER_return_value == __CPROVER_old($2) && *$3 == __CPROVER_old(*$3)))\n' % Q +
                       '__CPROVER_ensures(%s != 64 ==> (__CPROVER_return_value == __CPROVER_old($2) + 1 && *$3 == (__CPROVER_old(*$3) | (1ULL << %s)) && '
                       '*__CPROVER_old($2) == ((%du << 9) | (sp_kind8($1->_board[%s]) << 6) | %s)))\n' % (Q, Q, ray, Q, Q))
@@ -257,7 +243,7 @@ def composition_jobs(leaf_contracts):
         PINOK = ' && '.join('(G_AG.pin[%d] == 64 || (G_AG.pin[%d] < 64 && G_AG.pin[%d] != %s && (($1->_by_color_bb[%d] >> G_AG.pin[%d]) & 1)))' % (r, r, r, KSQ, side, r) for r in range(8))
         c = ('__CPROVER_requires(wf_pos($1) && $1->_current_side == %d && __builtin_popcountll($1->_by_color_bb[%d] & $1->_by_piece_kind_bb[1]) <= 8)\n' % (side, side) +
              '__CPROVER_requires(%s)\n' % ' && '.join('__builtin_popcountll($1->_by_color_bb[%d] & $1->_by_piece_kind_bb[%d]) <= 10' % (side, k) for k in (2, 3, 4, 5)) +
-             '__CPROVER_requires(__CPROVER_same_object($2, g_lo) && __CPROVER_POINTER_OFFSET($2) == 0 && g_cap_bytes == 65536 && g_cnt >= 0 && g_cnt < 1000 && (G_M >> 17) == 0)\n'
+             '__CPROVER_requires(__CPROVER_same_object($2, g_lo) && __CPROVER_POINTER_OFFSET($2) == 0 && g_cap_bytes == 65536 && g_cnt >= 0 && g_cnt < 900 && (G_M >> 17) == 0)\n'
              '__CPROVER_requires(G_F3 == %s && G_F1 == alg_castle_sq_a(%d, %s) && G_F2 == alg_castle_sq_b(%d, %s))\n' % (GT, side, GC, side, GC) +
              '__CPROVER_requires(%s)\n' % PINOK +
              '__CPROVER_requires(G_AG.checkers == 0 || LINES[%s][alg_lsb(G_AG.checkers)] == G_AG.seg)\n' % KSQ +
@@ -286,7 +272,7 @@ def composition_jobs(leaf_contracts):
             stubs = [k for k in leafs if '__CPROVER_assigns()' not in cs[k]]     # leaves that write (ghost counter, pin records): stub form, see tools/cxx2c.py stub_text
             out.append(Job('compose/generate_legal_moves_%s/%s' % (sn, cname), MTUS, [fn], h, 'h_gl', contracts=dict(cs, **{fn: c}), nobody=leafs, enforce=fn, replace=leafs, stubs=stubs, loopc=lc, loop_contracts=bool(lc), expect=(['loop_invariant_step'] if lc else []),
                            hooks=HOOKS, spec=['poswf_decl.h', 'movegen.h'], post_spec=['poswf.h'], pre_text=COMPOSE_PRE, force_globals=['PINS'],
-                           unwindset=loops_unwind([(fn, 11)]), timeout=3000, canary=(cname == 'king'),
+                           unwindset=loops_unwind([(fn, 11)]), timeout=3000, canary=(cname == 'king'), backend='cadical',
                            route='closed-by-complete-unwinding(11): at most 10 pieces of a kind (piece-list capacity, precondition), at most 8 pins',
                            note='generate_legal_moves<%s> emits exactly the moves of the mask-glue predicate spec_alg_core, each once, for every value of the geometric sub-queries the leaf contracts allow - every leaf generator by contract; ghost move class: %s' % (sn, cname)))
     # assembly: for a well-formed Position and its mailbox abstraction, the square sets read off the bitboards are the sets of the board, the true values of
@@ -303,11 +289,6 @@ def composition_jobs(leaf_contracts):
               '  __CPROVER_assert(A.k < 64, "the king square read from the piece list is on the board");' + CANARY + '}\n')
     out.append(Job('compose/assembly', MTUS, ['checkers_0'], h, 'h_as', spec=['poswf_decl.h', 'pos.h', 'movegen.h'], post_spec=['poswf.h'], timeout=1800,
                    note='assembly lemma: bitboard sets == mailbox sets for well-formed positions; the true geometric values satisfy the typing facts the composition assumes of its ghosts'))
-    # the unwinding bound of the piece loops: a well-formed piece list (capacity 10, in bijection with its bitboard) bounds the population of the bitboard
-    h = ND + ('void h_cap(void) {\n  struct Position P = nondet_Position(); uint32_t pc = nondet_u32(); __CPROVER_assume(pc >= 1 && pc <= 12 && wf_row(&P, pc));\n'
-              '  __CPROVER_assert(__builtin_popcountll(wf_bb(&P, pc)) <= 10, "a well-formed piece list has at most 10 entries, hence its bitboard at most 10 squares");' + CANARY + '}\n')
-    out.append(Job('compose/list_capacity', MTUS, ['checkers_0'], h, 'h_cap', spec=['poswf_decl.h', 'pos.h'], post_spec=['poswf.h'], timeout=2400, backend='cadical',
-                   note='lemma: wf_row bounds the population of the piece bitboard by the list capacity (discharges the popcount preconditions of the composition for well-formed positions)'))
     return out
 
 
